@@ -22,6 +22,7 @@ CONCRETE = {
     "delta_q": {"D": 0, "A": 0.1},
     "trafo3w_losses": {"D": "hv", "A": "star"},
     "neglect_open_switch_branches": {"D": False, "A": True},
+    "init_vm_pu": {"D": None, "A": 1.04},       # keyword-only, neutral value None (the template's automatic start value is 1.0)
 }
 OPTKEY = {"delta_q": "delta"}
 _NET = None
@@ -80,11 +81,11 @@ def observe(case):
             out["err"] = "options never set: " + out["err"]
         else:
             for p in CONCRETE:
-                if p in ("init", "max_iteration"):
+                if p in ("init", "max_iteration", "init_vm_pu"):
                     continue
                 obs[p] = abstract(p, o.get(OPTKEY.get(p, p), "missing"))
             vm, va = o.get("init_vm_pu"), o.get("init_va_degree")
-            obs["init_vm_pu"] = "auto" if isinstance(vm, float) else str(vm)
+            obs["init_vm_pu"] = ("1.04" if abs(vm - 1.04) < 1e-9 else "auto") if isinstance(vm, float) else str(vm)
             obs["init_va_degree"] = str(va)
             obs["max_iteration"] = str(o.get("max_iteration"))
     out["obs"] = obs
@@ -113,7 +114,7 @@ def run(tier, seed, replay=None):
         f2, _ = tlc_obs("OptionsObs", "OptionsDev.cfg", [cases[i] for i in bad])
         unexplained = {bad[j] for _, j in f2}
     named = [k for k in CONCRETE if k not in ("numba", "switch_rx_ratio", "delta_q", "trafo3w_losses",
-                                              "neglect_open_switch_branches")]
+                                              "neglect_open_switch_branches", "init_vm_pu")]
     for name, i in fails:
         c = cases[i]
         touched = {p: (c["stored"].get(p, "Unset"), c["passed"].get(p, "NotPassed"))
@@ -136,7 +137,7 @@ def run(tier, seed, replay=None):
         "states": states + st["states"], "transitions": trans + st["generated"],
         "traces_validated_against_impl": len(cases), "exhaustive": True, "evaluations": len(cases),
         "distinct_nontrivial": conflicts,
-        "rule": "every (stored, passed) assignment over every subset of <=2 of the 17 parameters, values {unset/not passed, "
+        "rule": "every (stored, passed) assignment over every subset of <=2 of the 18 parameters, values {unset/not passed, "
                 "default, non-default}; one set_user_pf_options + runpp per state; non-trivial = a stored value conflicts "
                 "with a passed one",
         "rejected": sum(c["rejected"] for c in cases),
